@@ -555,6 +555,7 @@ def run(chk, S: Session):
     chk.extra["guard_table_rows"] = len(table)
     chk.exhaustive = True
     warning_rules(chk, S, r3)
+    dtype_rules(chk, S)
 
 
 def warning_rules(chk, S, r3):
@@ -595,3 +596,39 @@ def warning_rules(chk, S, r3):
     solver = it.instantiate(it.class_value(SOLVERS + ".solver"), [], dict(strategy=st, constraint=A("c")), "<harness>")
     it.call(it.function_value(ADAPT + ".solve_adaptive_terminal_values"), [solver, A("error")], {}, "<harness>")
     r3.require(not [e for e in it.events if e["kind"] == "warn"], "solve_adaptive_terminal_values is silent", "any strategy is fine for terminal values", "warning emitted for terminal values")
+
+
+def dtype_rules(chk, S):
+    """A Taylor-coefficient container whose leaves have different dtypes (integer initial values with float derivatives, float32 next to
+    float64) is not rejected by any factorisation; it must then be *promoted*.  jax.flatten_util.ravel_pytree's unravel() casts every leaf
+    back to the dtype it had in the example tree: an unravel closure derived from the raw container truncates the state mean at every step."""
+    from ..harness import DENSE, A, method
+
+    r4 = chk.rule("R-C20-4", "wrong dtype that is not rejected is promoted: every unravel closure that maps the flat state back to the caller's container is derived from a "
+                  "dtype-homogeneous example (each leaf cast to the dtype of the raveled container), never from the raw container", floor=1)
+    it = S.interp()
+    cv = it.class_value(DENSE + ".DenseTreeFlatten")
+    x = A("example")
+    try:
+        out = it.call(method(it, cv, "from_example"), [x], {}, "<harness>")
+    except (AnalysisError, RaiseSignal) as e:
+        r4.unknown("DenseTreeFlatten.from_example unravel closure", f"not analysed: {e}", DENSE)
+        return
+    S.absorb(it)
+    u = out.fields.get("unravel") if hasattr(out, "fields") else None
+    if not (isinstance(u, T.Term) and u.op == "unravel_of" and u.args):
+        r4.unknown("DenseTreeFlatten.from_example unravel closure", f"unravel = {T.show(u, 4)} is not the closure of a ravel_pytree call", DENSE)
+        return
+    src = u.args[0]
+    flat_dtype = T.mk("attr", (T.mk("tree.ravel", (x,)), "dtype"))
+    ok = False
+    if isinstance(src, T.Term) and src.op == "tree.tree_map" and len(src.args) == 2 and src.args[1] is x and isinstance(src.args[0], T.Term) and src.args[0].op == "lam":
+        body = src.args[0].args[1]
+        # leaf -> asarray(leaf, dtype=<dtype of the raveled container>)  /  leaf.astype(<that dtype>)
+        if isinstance(body, T.Term) and body.op == "np.asarray" and body.kwargs.get("dtype", body.args[1] if len(body.args) > 1 else None) is flat_dtype:
+            ok = True
+        if isinstance(body, T.Term) and body.op == "mcall" and body.args[1] == "astype" and len(body.args) > 2 and body.args[2] is flat_dtype:
+            ok = True
+    r4.require(ok, "DenseTreeFlatten.from_example unravel closure", "derived from the container with every leaf cast to the common dtype",
+               f"unravel closure of {T.show(src, 5)}: ravel_pytree's unravel() restores each leaf's own dtype, so a container with mixed dtypes "
+               "(integer initial values, float derivatives) has its mean truncated whenever it is unflattened", DENSE)
